@@ -14,9 +14,9 @@ EXTENDS DataDir, Json, IOUtils
 In == JsonDeserialize(IOEnv.VIN)
 Runs == In.runs
 VARIABLES vrun, vpos, vres
-tvars == <<venv, vstart, vtouched, vcache, vobs, vrun, vpos, vres>>
+tvars == <<venv, vstart, vused, vtouched, vcache, vobs, vrun, vpos, vres>>
 
-Start(k) == /\ venv = Runs[k].start /\ vstart = Runs[k].start /\ vtouched = FALSE /\ vcache = NoCache
+Start(k) == /\ venv = Runs[k].start /\ vstart = Runs[k].start /\ vused = FALSE /\ vtouched = FALSE /\ vcache = NoCache
             /\ vobs = [k |-> "init"]
 TInit == vrun = 1 /\ vpos = 1 /\ vres = <<>> /\ Start(1)
 
@@ -28,9 +28,9 @@ TStep ==
   /\ IF vpos > Len(Runs[vrun].events) THEN
         /\ vrun' = vrun + 1 /\ vpos' = 1 /\ UNCHANGED vres
         /\ IF vrun + 1 <= Len(Runs)
-           THEN /\ venv' = Runs[vrun + 1].start /\ vstart' = Runs[vrun + 1].start /\ vtouched' = FALSE
+           THEN /\ venv' = Runs[vrun + 1].start /\ vstart' = Runs[vrun + 1].start /\ vused' = FALSE /\ vtouched' = FALSE
                 /\ vcache' = NoCache /\ vobs' = [k |-> "init"]
-           ELSE UNCHANGED <<venv, vstart, vtouched, vcache, vobs>>
+           ELSE UNCHANGED <<venv, vstart, vused, vtouched, vcache, vobs>>
      ELSE LET e == Runs[vrun].events[vpos] IN
           /\ Act(e)
           /\ vpos' = vpos + 1 /\ vrun' = vrun
